@@ -929,6 +929,6 @@ pub fn run(args: &Args, prop: Prop) {
     }
     out.finish(
         25,
-        "cases = fixed corpus (witnesses of F6-F9, drift with zero validator total, invalid operations, slashed queues on two validators) + PRNG-generated histories of 5-60 operations over 2-4 delegators x 1-3 validators (generated adaptively against the running implementation so that amounts hit the displayed delegation, replayed from the recorded op list); distinct by SHA-256 of setup+ops; non-trivial = at least two successful state-changing operations (delegate / undelegate / redelegate / paying withdrawal / slash changing a delegation / block advance with a payout)",
+        "cases = fixed corpus (witnesses of F6-F9, drift with zero validator total, invalid operations, slashed queues on two validators; bonded denom \"ustake\", the invalid-operations scenario on the default \"TOKEN\") + scenarios with a NON-default bonded denomination (ustake / uatom, 1 in 12 the default) observed in the bonded denom AND in every other denomination (AllBalances, supply of the default and the foreign denom) + PRNG-generated histories of 5-60 operations over 2-4 delegators x 1-3 validators (generated adaptively against the running implementation so that amounts hit the displayed delegation, replayed from the recorded op list); distinct by SHA-256 of setup+ops; non-trivial = at least two successful state-changing operations (delegate / undelegate / redelegate / paying withdrawal / slash changing a delegation / block advance with a payout)",
     );
 }
